@@ -8,9 +8,7 @@ package main
 
 import (
 	"fmt"
-	"os"
 	"runtime"
-	"runtime/pprof"
 	"time"
 	"sync"
 	"sync/atomic"
@@ -275,12 +273,6 @@ func main() {
 		r.Finish("replay of one case", false)
 	}
 
-	if pf := os.Getenv("C16_PROF"); pf != "" {
-		f, _ := os.Create(pf)
-		pprof.StartCPUProfile(f)
-		defer pprof.StopCPUProfile()
-		go func() { time.Sleep(40 * time.Second); pprof.StopCPUProfile(); os.Exit(3) }()
-	}
 	// option sets by text length: tiers[k] applies to the texts of length lens[k-1]+1 .. lens[k]
 	type tier struct {
 		name   string
@@ -327,7 +319,7 @@ func main() {
 	}
 	go e.watchdog()
 
-	// the heavy shards (full option product) first; VERIF_SEED rotates the visiting order only
+	// VERIF_SEED rotates the visiting order (and with it the samples) only
 	n := len(texts)
 	enum.Parallel(n, r.OutOfTime, func(i int) {
 		idx := (i + e.seed) % n
